@@ -204,6 +204,8 @@ def run(ck, ctx):
         for e in unk:
             if e.kind == "mcall-unknown" and e.data.get("name") in ("log", "rule"):
                 continue
+            if e.kind == "mcall-unknown" and _library_value_method(I, e):
+                continue
             if e.kind == "unsupported" and (e.data.get("body_calls") == "pure" or
                                             e.data.get("what") == "break-in-opaque-loop"):
                 # a loop that is summarised instead of unrolled: its body was evaluated once (opaque loop) or calls
@@ -371,6 +373,36 @@ def run(ck, ctx):
         ck.ob("R17.5", "nothing removes or renames the output file", not dels, table, func,
               ", ".join(e.where() for e in dels[:3]))
     ck.guard(r175, "R17.5")
+
+
+IO_NAMES = ("write", "save", "dump", "tofile", "to_file", "to_csv", "to_hdf", "savefig", "writeto", "flush", "open",
+            "remove", "unlink", "rename", "mkdir", "touch", "store", "export")
+
+
+def _library_value_method(I, e) -> bool:
+    """a method with a non-I/O name called on a value object of a computational library (astropy coordinates / time /
+    units, numpy, scipy interpolators): it computes; it cannot write a file"""
+    name = str(e.data.get("name") or "")
+    if any(k in name.lower() for k in IO_NAMES):
+        return False
+    recv = e.data.get("recv")
+    if recv is None:
+        return False
+    from ..ir import walk as _walk
+    LIBS = ("astropy.coordinates.", "astropy.time.", "astropy.units.", "astropy.constants.", "numpy.", "scipy.")
+    seen = 0
+    x = recv
+    for _ in range(12):
+        x = I.res(x, None) if False else x
+        if x.op == "Call" and x.args and x.args[0].op == "Ext":
+            return x.args[0].attr.startswith(LIBS)
+        if x.op in ("MCall", "Attr", "Subscript", "State") and x.args:
+            x = x.args[0]
+            continue
+        if x.op == "Obj" and x.extra and x.extra.get("cls") is None and x.extra.get("ext_bases"):
+            return all(str(b).startswith(LIBS) for b in x.extra["ext_bases"])
+        break
+    return False
 
 
 def _strip_not(c, p):
